@@ -278,6 +278,12 @@ VARIANTS = [
     V("twin: emptiness guards of the scan written with len() / shape", ("C10",), "", "core.py",
       '    if inp.group_idx.size == 0:\n        # a zero-length block: nothing to scan',
       '    if inp.array.shape[axis] == 0:\n        # a zero-length block: nothing to scan', expect="silent"),
+    V("thread-pool arm of factorize_ drops sort from its partial", ("C16", "C03"), "R-PASSTHROUGH[sort]", "core.py",
+      'executor.submit(partial(_factorize_single, sort=sort, reindex=reindex), groupvar, expect)',
+      'executor.submit(partial(_factorize_single, reindex=reindex), groupvar, expect)', must_mention="partial"),
+    V("twin: thread-pool arm supplies sort at the hand-over instead of in the partial", ("C16", "C03"), "", "core.py",
+      'executor.submit(partial(_factorize_single, sort=sort, reindex=reindex), groupvar, expect)',
+      'executor.submit(partial(_factorize_single, reindex=reindex), groupvar, expect, sort=sort)', expect="silent"),
     V("dtype promotion memoised with an untyped key", ("C14",), "R-MEMO", "xrdtypes.py", '        dtype = np.result_type(dtype, fill_value)\n    return dtype\n',
       '        dtype = _promote_for_fill_value(dtype, fill_value)\n    return dtype\n\n\n@functools.lru_cache\ndef _promote_for_fill_value(dtype: np.dtype, fill_value) -> np.dtype:\n    return np.result_type(dtype, fill_value)\n', must_mention="typed"),
     V("twin: dtype promotion memoised with typed=True", ("C14",), "", "xrdtypes.py", '        dtype = np.result_type(dtype, fill_value)\n    return dtype\n',
